@@ -25,6 +25,8 @@ pub struct Block {
 pub enum Anchor {
     Begin,
     End,
+    /// bind the body's tail expression to the result name, then insert (R-bindtail)
+    Result,
     LoopBegin(usize),
     LoopEnd(usize),
     After(String),
@@ -140,6 +142,8 @@ pub fn parse(text: &str, path: &str) -> Contracts {
                     Anchor::Begin
                 } else if a == "end" {
                     Anchor::End
+                } else if a == "result" {
+                    Anchor::Result
                 } else if a.starts_with("loop ") {
                     let parts: Vec<&str> = a.split_whitespace().collect();
                     if parts.len() != 3 {
